@@ -133,13 +133,20 @@ end Forest
 namespace Fmap
 open Forest (MapKind)
 
-/-- **Can the step change the views of `x`?** — the sharp reading.  For a call of the framed domain that answers
+/-- The call answered an error. -/
+def _root_.XotModel.Res.isErr : Res → Bool
+  | .err _ => true
+  | _ => false
+
+/-- **Can the step change the views of `x`?** — the sharp reading.  A call (ANY extended call) on live arguments
+    that answers an error has changed nothing (`C06_atomic_ext`): it touches nothing.  For a call of the framed domain that answers
     `ok` and whose node arguments are live: the tracked element or one of its children (its entry nodes are among them) is in `writtenParents`, inside a
     removed subtree or inside the moved subtree.  Otherwise the coarse `touchesEntries`. -/
 def sharpTouches (s : PStore) (x : Nat) : PCall → Bool
   | .parse _ _ => !s.forest.isLive x
   | .api c =>
-    if c.framed && decide ((c.run s.store).2 = .ok) && c.args.all (fun a => s.forest.isLive a) then
+    if c.args.all (fun a => s.forest.isLive a) && (c.run s.store).2.isErr then false
+    else if c.framed && decide ((c.run s.store).2 = .ok) && c.args.all (fun a => s.forest.isLive a) then
       !s.forest.isLive x || (x :: s.forest.kidHandles x).any (fun a =>
         decide (a ∈ c.writtenParents s.forest ++ c.removedHandles s.forest ++ c.movedSubtree s.forest))
     else touchesEntries s.forest x (.api c)
